@@ -46,7 +46,7 @@ def load_contracts():
 def units_for(prop, tier):
     out = []
     for cid, c in U.BY_ID.items():
-        if prop in c.properties:
+        if prop in c.properties or prop in getattr(c, "extra_properties", ()):
             if tier == "quick" and getattr(c, "thorough_only", False):
                 continue
             for ov in c.overloads:
